@@ -150,6 +150,10 @@ func (c *Ctx) Close() {
 	}
 }
 
+// theCtx is the context of the running property (helpers without a Ctx parameter record the
+// in-flight input through it)
+var theCtx *Ctx
+
 var props = map[string]func(*Ctx){}
 
 func register(pid string, f func(*Ctx)) { props[pid] = f }
@@ -188,6 +192,7 @@ func runProp(args []string) bool {
 	os.Remove(c.Or.partial)
 	os.Remove(filepath.Join(c.Out, "oracle.json"))
 	c.Landed()
+	theCtx = c
 	f(c)
 	c.Close()
 	fmt.Printf("%s: evaluations=%d distinct=%d violations=%d\n", c.PID, c.Or.Evaluations, c.Or.Distinct, len(c.Or.Violations))
